@@ -9,7 +9,7 @@ from mc.core import Result, SubCheck
 PROPERTY = "C18"
 ASSUMPTIONS = [
     "operating points on a lattice: evaporating temperature every 20 K inside each refrigerant's two-phase range, lift in {3,10,30,60} K, superheat/subcooling in {0,5} K, "
-    "compressor efficiency in {0.5,0.7,1}, duty in {1,1000}; no internal heat exchanger (ihx_gas_dt = 0)",
+    "compressor efficiency in {0.5,0.7,1}, duty in {1,1000}; plus, at efficiency 0.7, superheat / subcooling of 0.003 K and a duty of 2e-5; no internal heat exchanger (ihx_gas_dt = 0)",
     "operating points whose evaporating pressure is below 1 kPa are outside the alphabet (the property library's state inversions break down there)",
     "'solves' means solve() returns; operating points where the property library (CoolProp) itself raises are counted as not solved and are not violations",
     "tolerances are relative 1e-7 (CoolProp's own state inversions are only that accurate); saturation pressures are compared with an independent PropsSI call",
@@ -62,6 +62,9 @@ def points(tier, inst):
                         for eta in (0.5, 0.7, 1.0):
                             for Q in (1.0, 1000.0):
                                 yield {"fluid": f, "Te": float(Te), "Tc": float(Tc), "sh": sh, "sc": sc, "eta": eta, "Q": Q}
+                # legal but unusual magnitudes: a few millikelvin of superheat / subcooling (a stream spanning less than 0.005 K), a duty of 2e-5
+                for sh, sc, Q in ((0.003, 0.003, 1.0), (5.0, 0.003, 1.0), (0.003, 5.0, 1000.0), (5.0, 5.0, 2e-5), (0.0, 0.0, 2e-5)):
+                    yield {"fluid": f, "Te": float(Te), "Tc": float(Tc), "sh": sh, "sc": sc, "eta": 0.7, "Q": Q}
 
 
 def solve(case):
